@@ -62,7 +62,159 @@ def run(p: Project, tier: str) -> Result:
     for w in ws:
         check_thread_state_pairing(w, r)
         check_blocked_before_out_wait(w, r)
+        check_classification(w, r)
+        check_worker_registration(w, r)
+        check_source_blocked(w, r)
     return r
+
+
+def check_classification(w, r):
+    """R9: check_thread_state_and_update_<node>_state maps the worker counts to the node state: no worker → IDLE, some worker processing →
+    PROCESSING, all workers blocked → BLOCKED.  Decided by evaluating the (normalised) decision tree for representative counts."""
+    from .common import eval_guard, NotEvaluable
+    name = next((m for m in REFRESH if m in w.methods and m != 'update_state_rep'), None)
+    if name is None:
+        return
+    r.rule('C17.R9', 'the state classification maps (processing, blocked, workers) to IDLE / PROCESSING / BLOCKED correctly', 2)
+    fi = w.methods[name]
+    r.analysed_functions.add(fi.key)
+    key = f'{fi.key}::classification'
+    names = None
+    for n in walk_no_nested(fi.node):
+        if isinstance(n, ast.Assign) and isinstance(n.value, ast.Call) and ast.unparse(n.value.func) == 'self._count_worker_state' \
+                and isinstance(n.targets[0], ast.Tuple) and len(n.targets[0].elts) == 2:
+            names = [ast.unparse(e) for e in n.targets[0].elts]
+    if names is None:
+        r.fail('C17.R9', key, 'the classification does not take (processing, blocked) from _count_worker_state()', src(fi.module), fi.node.lineno)
+        return
+
+    def run(stmts, bind):
+        for st in stmts:
+            if isinstance(st, ast.If):
+                return run(st.body if eval_guard(st.test, bind) else st.orelse, bind) or (None if st is not stmts[-1] else None) or run(stmts[stmts.index(st) + 1:], bind)
+            if isinstance(st, ast.Raise):
+                return 'raise'
+            if isinstance(st, ast.Return):
+                return None
+            if isinstance(st, ast.Expr) and isinstance(st.value, ast.Call) and ast.unparse(st.value.func) == 'self.update_state' and st.value.args \
+                    and isinstance(st.value.args[0], ast.Constant):
+                return st.value.args[0].value
+        return None
+    why = None
+    for (pv, bv, nv), want in (((0, 0, 0), 'IDLE_STATE'), ((1, 0, 1), 'PROCESSING_STATE'), ((1, 1, 2), 'PROCESSING_STATE'), ((2, 0, 2), 'PROCESSING_STATE'),
+                               ((0, 1, 1), 'BLOCKED_STATE'), ((0, 2, 2), 'BLOCKED_STATE')):
+        def bind(t, pv=pv, bv=bv, nv=nv):
+            t = t.replace(' ', '')
+            if t == names[0]:
+                return pv
+            if t == names[1]:
+                return bv
+            if t == 'len(self.worker_thread_list)':
+                return nv
+            if t == 'self.worker_thread_list':
+                return [None] * nv
+            raise KeyError(t)
+        try:
+            got = run(fi.node.body, bind)
+        except NotEvaluable as e:
+            why = f'the decision tree tests `{e}`, which is not a function of the worker counts'
+            break
+        if got != want:
+            why = f'with {pv} processing and {bv} blocked worker(s) of {nv} the node is put into {got or "no state"}, expected {want}'
+            break
+    if why:
+        r.fail('C17.R9', key, why, src(fi.module), fi.node.lineno)
+    else:
+        r.ok('C17.R9', key, 'IDLE / PROCESSING / BLOCKED for the six representative worker counts', src(fi.module), fi.node.lineno)
+
+
+def check_worker_registration(w, r):
+    """R10: the classification counts the processes in worker_thread_list, the occupancy buckets count granted worker slots.  On every path of
+    `behaviour` a spawned worker is appended to worker_thread_list and a granted slot is followed by _update_worker_occupancy(ADD) before the next
+    suspension; on every path of `worker` the slot release is followed by the removal from the list and _update_worker_occupancy(REMOVE)."""
+    if not any(m in w.methods for m in REFRESH) or 'worker' not in w.roots or '_update_worker_occupancy' not in w.methods:
+        return
+    r.rule('C17.R10', 'spawned workers are registered / granted slots are counted (ADD) and both are undone when the worker ends (REMOVE)', 6)
+    sites = {}
+
+    def note(key, e, pa, ok, why):
+        rec = sites.setdefault(key, {'ok': True, 'e': e, 'pa': pa, 'why': ''})
+        if not ok and rec['ok']:
+            rec.update(ok=False, pa=pa, why=why)
+    for pa in w.roots.get('behaviour', []):
+        if pa.raises or pa.status == 'loopcut':
+            continue
+        evs = pa.events
+        for i, e in enumerate(evs):
+            if e.kind == 'spawn' and e.func == 'self.worker':
+                seg_end = next((j for j in range(i + 1, len(evs)) if evs[j].kind == 'yield'), len(evs))
+                reg = any(x.kind == 'xcall' and x.name == 'self.worker_thread_list.append' and x.args and x.args[0] == e.result for x in evs[i:seg_end])
+                note(site(e.fi, e.node, 'worker-registered'), e, pa, reg,
+                     'a worker process is started but not appended to worker_thread_list before the process suspends: the state classification does not count it '
+                     '(its processing / blocked time is charged to IDLE)')
+            if e.kind == 'yield' and e.value is not None and e.value[0] == 'presult' and e.value[1] == 'request':
+                seg_end = next((j for j in range(i + 1, len(evs)) if evs[j].kind == 'yield'), len(evs))
+                add = any(x.kind == 'call' and x.name == '_update_worker_occupancy' and x.args and x.args[0] == ('const', 'ADD') for x in evs[i + 1:seg_end])
+                note(site(e.fi, e.node, 'slot-counted'), e, pa, add,
+                     'a worker slot is granted but _update_worker_occupancy("ADD") does not run before the next suspension: the occupancy buckets undercount')
+    for pa in w.roots['worker']:
+        if pa.raises or pa.status == 'loopcut':
+            continue
+        evs = pa.events
+        for i, e in enumerate(evs):
+            if e.kind == 'pcall' and e.name == 'release':
+                rest = evs[i:]
+                rem = any(x.kind == 'call' and x.name == '_update_worker_occupancy' and x.args and x.args[0] == ('const', 'REMOVE') for x in rest)
+                unreg = any(x.kind == 'xcall' and x.name == 'self.worker_thread_list.remove' for x in rest) or \
+                    any(x.kind == 'cond' and x.polarity is False and 'inself.worker_thread_list' in x.text.replace(' ', '') for x in rest)
+                note(site(e.fi, e.node, 'slot-released'), e, pa, rem and unreg,
+                     'the worker releases its slot but ' + ('_update_worker_occupancy("REMOVE") does not run' if not rem else 'it stays in worker_thread_list') +
+                     ' on this path: occupancy / state classification keep counting a finished worker')
+    for key, rec in sorted(sites.items()):
+        e = rec['e']
+        r.analysed_functions.add(e.fi.key)
+        if rec['ok']:
+            r.ok('C17.R10', key, 'paired on every path', src(e.fi.module), e.line)
+        else:
+            r.fail('C17.R10', key, rec['why'], src(e.fi.module), e.line, rec['pa'].describe())
+
+
+def check_source_blocked(w, r):
+    """R11 (Source): while the source waits for room downstream it is in BLOCKED_STATE: at every suspension on a put reservation, any_of over put
+    reservations or its push process, the last update_state of the path set BLOCKED_STATE - otherwise that time is charged to GENERATING."""
+    if w.ci.name != 'Source' or 'behaviour' not in w.roots:
+        return
+    r.rule('C17.R11', 'Source: BLOCKED_STATE is recorded before every wait for room downstream on blocking paths', 2)
+    sites = {}
+    for pa in w.roots['behaviour']:
+        if pa.raises:
+            continue
+        cur = None
+        put_lists, put_waits = set(), set()
+        blocking = None
+        for e in pa.events:
+            if e.kind == 'cond' and e.text == 'self.blocking':
+                blocking = e.polarity
+            if e.kind == 'call' and e.name == 'update_state' and e.args and e.args[0][0] == 'const':
+                cur = e.args[0][1]
+            elif e.kind == 'pcall' and e.name == 'reserve_put':
+                (put_lists if e.over is not None else put_waits).add(e.result)
+            elif e.kind == 'xcall' and e.name.endswith('any_of') and e.args and e.args[0] in put_lists:
+                put_waits.add(e.result)
+            elif e.kind == 'spawn' and '_push_item' in e.func:
+                put_waits.add(e.result)
+            elif e.kind == 'yield' and e.value in put_waits and blocking:
+                key = site(e.fi, e.node, 'blocked-before-out-wait')
+                rec = sites.setdefault(key, {'ok': True, 'e': e, 'pa': pa, 'why': ''})
+                if cur != 'BLOCKED_STATE' and rec['ok']:
+                    rec.update(ok=False, pa=pa, why=f'the source waits for room downstream (`{e.text}`) while its recorded state is {cur}: the wait is charged to that state, '
+                                                    f'not to BLOCKED_STATE')
+    for key, rec in sorted(sites.items()):
+        e = rec['e']
+        if rec['ok']:
+            r.ok('C17.R11', key, 'BLOCKED_STATE recorded on every blocking path reaching this wait', src(e.fi.module), e.line)
+        else:
+            r.fail('C17.R11', key, rec['why'], src(e.fi.module), e.line, rec['pa'].describe())
 
 
 REFRESH = ('update_state_rep', 'check_thread_state_and_update_splitter_state', 'check_thread_state_and_update_combiner_state')
@@ -364,6 +516,15 @@ def check_final(p, w, r):
             why, bad = 'the credited amount is not `T − last_state_change_time`', pa
     if n == 0:
         why = why or 'no crediting path'
+    # nodes that keep occupancy buckets also close the last occupancy interval
+    if not why and '_update_worker_occupancy' in w.methods:
+        closes = any(isinstance(x, ast.Call) and ast.unparse(x.func) == 'self._update_worker_occupancy' and
+                     ((x.args and isinstance(x.args[0], ast.Constant) and x.args[0].value == 'UPDATE') or
+                      any(k.arg == 'action' and isinstance(k.value, ast.Constant) and k.value.value == 'UPDATE' for k in x.keywords))
+                     for x in walk_no_nested(fi.node))
+        if not closes:
+            why = ('the final interval is not credited to the worker-occupancy buckets (_update_worker_occupancy("UPDATE") missing): the buckets add up to less '
+                   'than the elapsed time')
     if why:
         r.fail('C17.R5', key, why, src(fi.module), fi.node.lineno, bad.describe() if bad else None)
     else:
